@@ -273,6 +273,13 @@ def oracles(case, impl, model):
         out += _oracle_pair(case, impl, model)
     if fam == "api":
         out += _oracle_api(case, impl)
+        if True:
+            for pr in case["meta"].get("pairs", []):
+                sp = case.get("_shadow", {}).get(pr["enc"])
+                if sp is not None and not sp.startswith("ok:"):
+                    out.append(("C03", "RFC decoder rejects the block of `%s` with %s" % (case["cmds"][pr["enc"]][:120], sp)))
+                elif sp is not None and [(n, v) for _, n, v in parse_fields(sp)] != [(n, v) for n, v, s in pr["fields"]]:
+                    out.append(("C03", "RFC decoder recovers different fields from the block of `%s`" % case["cmds"][pr["enc"]][:120]))
     if fam == "cost":
         out += _oracle_cost(case, impl)
     return out
@@ -319,6 +326,58 @@ def _oracle_api(case, impl):
             if clean[i] != ref:
                 out.append(("C18", "forms differ: `%s` gives %s but `%s` gives %s"
                             % (case["cmds"][g[0]][:150], ref[:120], case["cmds"][i][:150], clean[i][:120])))
+    # the reference encoder and its peer decoder: round trip (C01), lockstep (C10), RFC meaning (C03),
+    # sensitivity (C15) and single index (C19) on the API path
+    last_state = {}
+    for i, cmd in enumerate(case["cmds"]):
+        w = cmd.split()
+        if w[0] in ("enew", "eset", "eencf"):
+            st = parse_state(clean[i])
+            if w[0] == "eencf" and clean[i].startswith("ok:"):
+                before = last_state.get(w[1])
+                reps, err = S.parse_reps(unhex(clean[i].split(" ")[0][3:]))
+                frs = [r for r in reps if r[0] != "size"]
+                forms = w[4:]
+                if not err and len(frs) == len(forms) and w[3] != "D" and before is not None:
+                    dyn = [(unhex(a), unhex(x)) for a, x in before["ent"]]
+                    for tok, r in zip(forms, frs):
+                        kind, nt, vt = tok.split(",")
+                        n, v = unhex(nt[1:] or "-"), unhex(vt[1:] or "-")
+                        sens = kind in ("3T", "N")
+                        present = (n, v) in S.STATIC or (n, v) in dyn
+                        if sens and r[0] == "lit" and r[1] != "never":
+                            out.append(("C15", "sensitive field given as form %s was sent as literal '%s' by `%s`" % (kind, r[1], cmd[:120])))
+                        if present and r[0] != "idx":
+                            out.append(("C19", "field %s:%s is addressable but `%s` sent it as %s" % (_hx(n), _hx(v), cmd[:100], r[0:2])))
+                        if r[0] == "lit" and r[1] == "inc":
+                            if sens:
+                                out.append(("C15", "sensitive field inserted by the encoder's own output"))
+                            dyn = S.fit(st["max"], [(n, v)] + dyn)
+                    after = [(unhex(a), unhex(x)) for a, x in st["ent"]]
+                    if after != dyn:
+                        sens_nv = {(unhex(t.split(",")[1][1:] or "-"), unhex(t.split(",")[2][1:] or "-")) for t in forms if t.split(",")[0] in ("3T", "N")}
+                        if any(e in sens_nv and e not in dyn for e in after):
+                            out.append(("C15", "sensitive field inserted into the encoder table by `%s`" % cmd[:120]))
+            if st is not None:
+                last_state[w[1]] = st
+    for pr in case["meta"].get("pairs", []):
+        el, pl = clean[pr["enc"]], clean[pr["pipe"]]
+        fields = [(n, v) for n, v, s in pr["fields"]]
+        if not el.startswith("ok:"):
+            out.append(("C03", "encode raised %s on `%s`" % (el.split(" ")[0], case["cmds"][pr["enc"]][:120])))
+            continue
+        if pl.startswith("skip"):
+            continue
+        if not pl.startswith("ok:"):
+            out.append(("C01", "decoder raised %s on the block of `%s`" % (pl.split(" ")[0], case["cmds"][pr["enc"]][:120])))
+            out.append(("C10", "decoder raised %s on the block of `%s`" % (pl.split(" ")[0], case["cmds"][pr["enc"]][:120])))
+            continue
+        got = [(n, v) for _, n, v in parse_fields(pl)]
+        if got != fields:
+            out.append(("C01", "API round trip: `%s` decoded to different fields" % case["cmds"][pr["enc"]][:120]))
+        es, ds = parse_state(el), parse_state(pl)
+        if es and ds and (es["ent"] != ds["ent"] or es["max"] != ds["max"]):
+            out.append(("C10", "tables differ after the block of `%s`" % case["cmds"][pr["enc"]][:120]))
     for a, b in case["meta"]["twins"]:
         ra, rb = clean[a], clean[b]
         sa, sb = ra[ra.index(" T max="):], rb[rb.index(" T max="):]
@@ -369,6 +428,7 @@ def _oracle_pair(case, impl, model):
     enc_state = None
     enc_before = None
     in_force = None
+    last_eenc = None
     for i, cmd in enumerate(cmds):
         w = cmd.split()
         line = impl[i].split(" | TY ")[0]
@@ -379,6 +439,7 @@ def _oracle_pair(case, impl, model):
         if w[0] == "eset":
             enc_before = parse_state(line)
         if w[0] == "eenc":
+            last_eenc = i
             if bi >= len(blocks):
                 break
             b = blocks[bi]
@@ -468,10 +529,10 @@ def _oracle_pair(case, impl, model):
                         out.append(("C10", "tables differ after block %d: encoder %d entries max %s, decoder %d entries max %s"
                                     % (bi - 1, len(enc_state["ent"]), enc_state["max"], len(dst["ent"]), dst["max"])))
                     sens = {(n, v) for n, v, s in b["fields"] if s}
-            # C03: the specification decoder on the same bytes (model line's spec half; valid when the eenc lines agree)
-            if model is not None:
-                sp = spec_part(model[i])
-                if sp is not None and not sp.startswith("ok:"):
+            # C03: the specification decoder on the bytes the real encoder emitted for this block
+            sp = case.get("_shadow", {}).get(last_eenc)
+            if sp is not None:
+                if not sp.startswith("ok:"):
                     out.append(("C03", "RFC decoder rejects the encoder's block %d with %s" % (bi - 1, sp)))
                 elif sp is not None and [(n, v) for _, n, v in parse_fields(sp)] != fields:
                     out.append(("C03", "RFC decoder recovers different fields from block %d" % (bi - 1)))
@@ -515,12 +576,40 @@ def run_cases(cases, want_gen=True):
         else:
             for i, l in zip(idx_g, go):
                 other[i] = l
+    # C03: an independent RFC decoder (the extracted Spec, inside a shadow model decoder) is fed the
+    # bytes the REAL encoder produced, block by block
+    shadow_cmds, shadow_owner = [], []
+    for gi, cmd in enumerate(cmds_all):
+        w = cmd.split()
+        ci = owner[gi][0]
+        if cases[ci]["family"] not in ("pair", "api"):
+            continue
+        if w[0] == "enew":
+            shadow_cmds.append("dnew sh_%s %x" % (w[1], 2 ** 40))
+            shadow_owner.append(None)
+            shadow_cmds.append("dsetmax sh_%s %x" % (w[1], 2 ** 40))
+            shadow_owner.append(None)
+        elif w[0] in ("eenc", "eencf"):
+            line = impl[gi].split(" | TY ")[0]
+            if line.startswith("ok:"):
+                shadow_cmds.append("ddec sh_%s 1 %s" % (w[1], line.split(" ")[0][3:] or "-"))
+                shadow_owner.append(gi)
+    shadow = {}
+    if shadow_cmds:
+        so, err = run_driver("m", shadow_cmds)
+        if err:
+            res["errors"].append(err)
+        else:
+            for gi, l in zip(shadow_owner, so):
+                if gi is not None:
+                    shadow[gi] = spec_part(l)
     # per case
     pos = 0
     for ci, c in enumerate(cases):
         n = len(c["cmds"])
         il = impl[pos:pos + n]
         ol = other[pos:pos + n]
+        c["_shadow"] = {gi - pos: v for gi, v in shadow.items() if pos <= gi < pos + n}
         for k, cmd in enumerate(c["cmds"]):
             if ol[k] is None:
                 continue
@@ -531,6 +620,7 @@ def run_cases(cases, want_gen=True):
         ml = [x if x is not None else "" for x in ol]
         for pid, msg in oracles(c, il, ml if any(ol) else None):
             res["oracle"].append({"case": ci, "property": pid, "what": msg})
+        c.pop("_shadow", None)
         pos += n
     return res
 
@@ -575,7 +665,8 @@ def run_world(rnd, n_cases, deep=False):
     def norm(l):
         return l.split(" | RC ")[0]      # reference-count deltas are not outputs
 
-    res = {"evaluations": 0, "cases": len(cases), "failures": [], "errors": [],
+    res = {"evaluations": 0, "cases": len(cases), "tagged": len({"\n".join(c["cmds"]) for c in cases if c["tags"]}),
+           "failures": [], "errors": [],
            "samples": [{"interleaving_head": inter[:10]}]}
     runs = {}
     plan = [("isolated", iso, owner_iso, "0", {}), ("interleaved", inter, owner_int, "0", {}),
